@@ -181,12 +181,13 @@ func classify(c scen.Case, f *harn.Failure) string {
 }
 
 var opts = scen.GenOpts{
-	World:       world.Opts{MaxFlows: 3, MaxNodes: 6, Languages: []string{"fra"}, Voice: true, QueryGroups: true, WebhookRefs: false},
+	World:       world.Opts{MaxFlows: 3, MaxNodes: 6, Languages: []string{"fra"}, Voice: true, QueryGroups: true, WebhookRefs: false, WaitHeavy: true},
 	Batch:       true,
 	StaleGroups: true,
 	Redaction:   true,
 	Refresh:     true,
 	Restarts:    true,
+	RestartBias: true,
 	MaxSteps:    6,
 	// a clock that stands still within a sprint makes equal timestamps common (anything ordered by time after a reload)
 	FrozenClocks: true,
